@@ -38,7 +38,10 @@ RULE = ("case = random history (<= 12 ops quick / <= 40 thorough) over up to 3 s
         "model. ARGUMENT FORMS (seed `af` of every op with options): num_visible / num_hidden / num_aux, epochs / pos_batch_size / k of fit and the "
         "ModelSaver period (a divisor of the epoch) as Python int / numpy.int64 / int32 / intp / uint8 / 0-d numpy array / 0-d torch tensor; gpu, "
         "save_initial, metadata_only as bool / int / numpy.bool_ / numpy comparison result / 0-d numpy array / 0-d torch tensor; ModelSaver and "
-        "autoload by keyword or positionally. non-trivial iff some load/autoload succeeds from a file written after a randomisation/training of its source; "
+        "autoload by keyword or positionally. LOCATION FORMS: one history in four (and every hand-written history a second time) writes every path "
+        "RELATIVE to the caller's working directory, and changes the working directory between creating a ModelSaver and the epochs it saves at "
+        "(the files stay <folder_path as given at construction>/<file_name>); the hand-written histories and 12 generated ones run again under "
+        "each process-global environment (default dtype float64, no_grad, another cwd). non-trivial iff some load/autoload succeeds from a file written after a randomisation/training of its source; "
         "distinct by hash of the plan")
 
 MD_KINDS = {
@@ -221,7 +224,7 @@ class Hooks:
         return "model of the operation (by construction)"
 
     def cs(self, op):
-        return {"plan": self.case["plan"], "tseed": self.case["tseed"], "op": op}
+        return {"plan": self.case["plan"], "tseed": self.case["tseed"], "op": op, **({"rel": True} if self.case.get("rel") else {})}
 
     def before(self, real, op):
         t = op["t"]
@@ -384,7 +387,7 @@ def level_fn(op, err):
 def one_case(ctx, case):
     hooks = Hooks(ctx, case)
     kept, obs = so.run_history(ctx, case, "c11.run", hooks, level_fn)
-    ctx.case({"plan": case["plan"], "tseed": case["tseed"]}, nontrivial=hooks.nontrivial,
+    ctx.case({"plan": case["plan"], "tseed": case["tseed"], "rel": bool(case.get("rel"))}, nontrivial=hooks.nontrivial,
              sample={"ops": [o["t"] for o in kept], "errors": [e for e, _ in obs], "tseed": case["tseed"]})
     ctx.count("cases_with_roundtrip" if hooks.nontrivial else "cases_without_roundtrip")
 
@@ -491,14 +494,28 @@ def gen_cases(ctx, thorough, ncases=None):
     maxlen = 40 if thorough else 12
     n = ncases if ncases is not None else (400 if thorough else 120)
     for k in range(n):
-        yield {"plan": gen_plan(ctx.rng, maxlen), "tseed": ctx.rng.randrange(1, 2 ** 31)}
+        # one history in four: every location written as a RELATIVE path, the working directory changed between creating a ModelSaver and using it
+        yield {"plan": gen_plan(ctx.rng, maxlen), "tseed": ctx.rng.randrange(1, 2 ** 31), "rel": ctx.rng.random() < 0.25}
 
 
 def run(ctx):
     ctx.rule = RULE
     for case in fixed_cases():
         one_case(ctx, case)
+        one_case(ctx, {**case, "rel": True})
     for case in gen_cases(ctx, ctx.tier == "thorough"):
+        one_case(ctx, case)
+
+
+def env_run(ctx, env_name):
+    """the same property for a caller who changed a process-global setting (harness/common.py ENVS: default dtype float64, no_grad,
+    another working directory): every hand-written history (all operation families, all three state types, ModelSaver, file objects)
+    with absolute and with relative locations, and a few generated ones; all objects are constructed inside the environment, and in the
+    relative-path histories the ModelSaver is created BEFORE a further change of the working directory and used after it"""
+    for case in fixed_cases():
+        one_case(ctx, {**case, "rel": case["tseed"] % 2 == 0})
+        one_case(ctx, {**case, "rel": case["tseed"] % 2 == 1})
+    for case in gen_cases(ctx, False, ncases=12):
         one_case(ctx, case)
 
 
@@ -507,6 +524,7 @@ def search(ctx):
     try:
         for case in fixed_cases():
             one_case(ctx, case)
+            one_case(ctx, {**case, "rel": True})
         for case in gen_cases(ctx, True, ncases=250):
             one_case(ctx, case)
     finally:
@@ -514,4 +532,4 @@ def search(ctx):
 
 
 def replay(ctx, case):
-    one_case(ctx, {"plan": case["plan"], "tseed": case["tseed"]})
+    one_case(ctx, {"plan": case["plan"], "tseed": case["tseed"], "rel": bool(case.get("rel"))})
